@@ -187,6 +187,9 @@ let kernel toks =
   | ["direct"; _; _; hex] -> pr "k direct %d\n" (List.length (String.split_on_char ',' hex))
   | ["direct"; _; _] -> pr "k direct 1\n"
   | ["overflow"; n] -> pr "k overflow %d\n" (bi (overflow_guard (zi n)))
+  | ["overflow2"; _; n1; _; n2; _] ->
+    (* the discard depends on the size of the instance's own open frame only: not on the clock, not on other instances *)
+    pr "k overflow2 %d %d %d\n" (bi (overflow_guard (zi n1))) (bi (overflow_guard (zi n2))) (bi (overflow_guard (zi n1)))
   | _ -> pr "k ? %s\n" (String.concat " " toks)
 
 (* ---- scenarios ---- *)
